@@ -5,7 +5,7 @@
    the correspondence run only; its panics on ill-formed octets are a recorded finding (partial). *)
 From Coq Require Import List NArith Bool Arith.
 Import ListNotations.
-Require Import V.Regex V.Abnf V.Parse V.ParseProofs V.Factor V.BridgePaths V.C02Bridge V.C02Proofs V.Cmp V.PctWf V.C19Proofs.
+Require Import V.Regex V.Abnf V.Parse V.ParseProofs V.Factor V.BridgePaths V.C02Bridge V.C02Proofs V.Auth V.AuthProofs V.C03Bridge V.Cmp V.PctWf V.C19Proofs V.C19Auth.
 Local Open Scope nat_scope.
 
 Theorem C19_octets_total_partial : forall s,
@@ -61,6 +61,19 @@ Proof.
   - intros f Ef. rewrite Ef in Hf. exact (dec_total_component _ _ chk_f_I Hf).
 Qed.
 Print Assumptions C19_reference_query_fragment_IRI.
+
+(* the same through the AUTHORITY accessors: for every authority of either family the user info slice (when present) and
+   the host slice that the decomposition returns have a total octet view *)
+Theorem C19_authority_views_URI : forall s, L (iauthority U) s ->
+  (forall u, oslice s (a_userinfo (authority_parts s)) = Some u -> exists u', dec u = Some u') /\
+  (exists h', dec (slice s (a_host (authority_parts s))) = Some h').
+Proof. intros s H. destruct (uri_authority_decomposition s H) as (a & Hv & Hd). exact (authority_views_decode U chk_ui_U chk_host_U s a Hv Hd). Qed.
+Print Assumptions C19_authority_views_URI.
+Theorem C19_authority_views_IRI : forall s, L (iauthority I) s ->
+  (forall u, oslice s (a_userinfo (authority_parts s)) = Some u -> exists u', dec u = Some u') /\
+  (exists h', dec (slice s (a_host (authority_parts s))) = Some h').
+Proof. intros s H. destruct (iri_authority_decomposition s H) as (a & Hv & Hd). exact (authority_views_decode I chk_ui_I chk_host_I s a Hv Hd). Qed.
+Print Assumptions C19_authority_views_IRI.
 
 Example C19_example : dec [97;37;70;70;37;99;51;37;65;57]%N = Some [97;255;195;169]%N.   (* a%FF%c3%A9 *)
 Proof. vm_compute. reflexivity. Qed.
